@@ -45,6 +45,7 @@ def strategy(tier):
             "ops": st.lists(op, max_size=12),
             "do_deletes": st.booleans(),
             "exc": st.integers(0, 2),
+            "in_handler": st.booleans(),
         }
     )
 
@@ -66,7 +67,8 @@ def exhaustive(tier):
                 for base in bases:
                     for dd in (False, True):
                         yield {"base": base, "ops": list(seq), "do_deletes": dd,
-                               "exc": (length + len(base)) % 3}
+                               "exc": (length + len(base)) % 3,
+                               "in_handler": (length + len(base) + int(dd)) % 2 == 1}
 
     yield (f"all op sequences of length<={n} over 2 keys x 4 pre-existing dbs x do_deletes", gen())
 
@@ -97,8 +99,17 @@ def run_case(case):
 
     exc_kind = case.get("exc", 0)
     info.label(["exit-by-Exception", "exit-by-BaseException", "exit-by-KeyboardInterrupt"][exc_kind])
+    in_handler = bool(case.get("in_handler"))
+    info.label("batch-inside-except-handler", in_handler)
     for exit_at in [None] + list(range(len(ops) + 1)):
-        _run_once(base, ops, dd, exit_at, exc_kind)
+        if in_handler:
+            # the whole batch runs while the caller is handling an unrelated exception
+            try:
+                raise LookupError("unrelated exception being handled by the caller")
+            except LookupError:
+                _run_once(base, ops, dd, exit_at, exc_kind)
+        else:
+            _run_once(base, ops, dd, exit_at, exc_kind)
         info.count("exits")
     return info
 
